@@ -300,6 +300,10 @@ func (g *vhGen) fill(v vhreflect.Value, depth int) {
 // ---------------------------------------------------------------------------
 // equality modulo nil/empty containers
 
+// vhIgnoreJSONDash is set while values of the random-data functions are compared after a JSON round trip:
+// those functions also fill fields tagged json:"-", which cannot come back.
+var vhIgnoreJSONDash bool
+
 func vhEqual(a, b vhreflect.Value) bool {
 	if a.Type() != b.Type() {
 		return false
@@ -329,6 +333,9 @@ func vhEqual(a, b vhreflect.Value) bool {
 				}
 				af = vhreflect.NewAt(f.Type, vhunsafe.Pointer(af.UnsafeAddr())).Elem()
 				bf = vhreflect.NewAt(f.Type, vhunsafe.Pointer(bf.UnsafeAddr())).Elem()
+			}
+			if vhIgnoreJSONDash && f.Tag.Get("json") == "-" {
+				continue // not on the wire: nothing to compare after a JSON round trip
 			}
 			if !vhEqual(af, bf) {
 				return false
@@ -958,7 +965,10 @@ func TestVerifHarness(t *vhtesting.T) {
 							vhEmit(map[string]any{"rand": rf.Name, "bad": "unmarshal error: " + err.Error(), "doc": string(b)})
 							return
 						}
-						if !vhEqual(rv, back.Elem()) {
+						vhIgnoreJSONDash = true
+						same := vhEqual(rv, back.Elem())
+						vhIgnoreJSONDash = false
+						if !same {
 							vhEmit(map[string]any{"rand": rf.Name, "bad": "JSON round trip changed the value", "doc": string(b)})
 							return
 						}
